@@ -215,6 +215,16 @@ def run(facts, R):
             rv = s["rv"]
             if rv.get("agg") == "adt" and rv["adt"] == adt and rv["variant"] == variant:
                 touts.append((i, j, s))
+        if getattr(b, "changed", False):
+            # the value may be built ahead of time (`.unwrap_or(Err(Timeout))`): what counts is where it becomes the result
+            at_return = []
+            for i, j, s in b.assigns():
+                if s["place"]["l"] == 0 and not s["place"]["p"] and i in b.live_blocks():
+                    v = sym.at(i, j).rvalue(s["rv"])
+                    if any(x[0] == "agg" and x[1] == adt and x[2] == variant for x in walk(v)):
+                        at_return.append((i, j, s))
+            if at_return:
+                touts = at_return
         R.floor("timeout-at-deadline", len(touts), 1, "Timeout exits of " + b.name)
         deadline_txt = None
         for i, j, s in touts:
@@ -242,6 +252,17 @@ def run(facts, R):
             if len(t["args"]) < 3:
                 continue
             d = sym.op(t["args"][2])
+            if getattr(b, "changed", False):
+                from analysis.sym import split_rows
+                alts = split_rows(sym, i, len(b.blocks[i]["stmts"]), {"use": t["args"][2]})
+                if alts and len(alts) == 1:
+                    d = alts[0][1]
+                elif alts:
+                    # the duration arrives through a temporary several paths assign: the `Some(..)` definitions are the ones that
+                    # can reach a wait (a `None` leaves through the let-else)
+                    somes = [v for _, v in alts if not (v[0] == "field" and v[1][0] == "variant" and v[1][1][0] == "agg" and v[1][1][2] == "None")]
+                    if len(somes) == 1:
+                        d = somes[0]
             ok = (is_call(d, "sub") or is_call(d, "saturating_duration_since") or is_call(d, "duration_since")) and len(d[2]) == 2 and render(d[2][0]) == deadline_txt and is_call(d[2][1], "Instant::now")
             R.check(ok, "timeout-at-deadline", b.path, "wait-duration",
                     "wait duration is %s, expected deadline - now with deadline=%s" % (render(d), deadline_txt), t.get("span"),
